@@ -340,7 +340,12 @@ func constify(t *rapid.T, f *File, auto AutoCfg) []cdef {
 			if rapid.IntRange(0, 3).Draw(t, "amongothers") == 0 {
 				// the constant is one token among several: BASE + K
 				nt := append([]string{}, (*s.toks)[:s.idx]...)
-				nt = append(nt, "BASE", "+", d.name)
+				if s.paren && rapid.Bool().Draw(t, "innergroup") {
+					// ... inside an inner parenthesised group: ( BASE + K ) * 2
+					nt = append(nt, "(", "BASE", "+", d.name, ")", "*", "2")
+				} else {
+					nt = append(nt, "BASE", "+", d.name)
+				}
 				nt = append(nt, (*s.toks)[s.idx+1:]...)
 				*s.toks = nt
 			}
